@@ -209,6 +209,33 @@ def main():
                 violations.append((obl, path, bool(pb['confirmed'])))
         units_ev.append(ev)
 
+    # ---------------- Verus unit undecided (front end / extraction): the Kani twins registered for functions of that unit still run as a
+    # counterexample search on the real text; a counterexample confirmed by native playback is a violation with an input, anything
+    # else leaves the unit undecided
+    for r in vresults:
+        if r.status != 'undecided':
+            continue
+        for ku in kunits:
+            for h in ku.harnesses:
+                if not (h.kind == 'twin' and h.twin and any(t.split('::')[0] == r.unit for t in h.twin.split(','))):
+                    continue
+                if h.status is None:
+                    run_harnesses(ku, [h], jobs=1)
+                if h.status == 'failure':
+                    pb = confirm_playback(ku, h)
+                    if pb['confirmed']:
+                        obl = f'{ku.unit}::{h.name}::harness-assertion'
+                        if known_match(known, prop, obl):
+                            known_hits.append((obl, known_match(known, prop, obl)))
+                            continue
+                        payload = dict(property=prop, unit=ku.unit, obligation=obl, verifier='kani+cbmc', harness=h.name, kind='twin',
+                                       twin_of=h.twin, note=f'the Verus unit {r.unit} is undecided on this tree ({r.reason[:200]}); its Kani twin found a counterexample',
+                                       failed_checks=h.failed_checks, counterexample_playback=pb['test'],
+                                       replayed_on='extracted text of the real functions, built natively (cargo kani playback)',
+                                       replay_output=pb['output'][-1500:], rerun=f'./check.py {prop} --tier {tier}')
+                        path = write_replay(prop, obl, payload)
+                        violations.append((obl, path, True))
+
     # ---------------- Verus failures -> known finding / twin / violation
     for r in vresults:
         if r.status != 'failed':
